@@ -110,6 +110,8 @@ static void do_rx(int n, char **w)
 		z = hexz(w[2], NULL);
 		if (!z) BAD();
 		if (!rx_live) { free(z); SKIP(); }
+		/* REG_NOSUB patterns leave pmatch untouched: start from a sentinel, not from stack contents */
+		for (i = 0; i < 4; i++) pm[i].rm_so = pm[i].rm_eo = -7;
 		op_begin(); ARM(err = regexec(&rx, z, 4, pm, 0));
 		free(z);
 		op_prefix(0); printf("%d", err);
